@@ -13,6 +13,7 @@ CONSTANTS
   Sizes = {"L-1", "L", "L+1", "2L+1"}
   HistStores <- HistStoresQuick
   HistKinds = {"L-1", "L", "L+1", "2L+1", "Rm", "RmFresh", "Put0", "Put255", "Iter"}
+  HistFillFirst = TRUE
   MaxSteps = 4
 INVARIANTS TypeOK HistAgrees HistRounds
 CHECK_DEADLOCK FALSE
